@@ -259,13 +259,12 @@ def store (j : Json) : P Store := do
   pure { flags := ← list flagEntry (arrD j "flags"),
          segments := ← list segmentEntry (arrD j "segments") }
 
-def status (s : String) : P Status :=
-  if s == "HEALTHY" then pure .healthy else if s == "STALE" then pure .stale
-  else if s == "STORE_ERROR" then pure .storeError else if s == "NOT_CONFIGURED" then pure .notConfigured
-  else throw s!"bad status {s}"
+/-- A Go `ldreason.BigSegmentsStatus` string: the four constants map to their constructors, `""` is
+"no status" (`none`), any other string `s` is `.other s`.  Never fails. -/
+def status (s : String) : P (Option Status) := pure (Status.ofString s)
 
-def statusOut : Status → String
-  | .healthy => "HEALTHY" | .stale => "STALE" | .storeError => "STORE_ERROR" | .notConfigured => "NOT_CONFIGURED"
+/-- The Go string of a status; `.other s` prints as `s`. -/
+def statusOut : Status → String := Status.toString
 
 def bsAnswer (j : Json) : P BSAnswer := do
   let m ← if (fldD j "m").isNull then pure none else
@@ -341,7 +340,7 @@ def resultIn (j : Json) : P Result := do
     | some "USER_NOT_SPECIFIED" => some .userNotSpecified
     | some _ => some .exception
     | none => none
-  let bss ← match optStr rj "bss" with | some s => some <$> status s | none => pure none
+  let bss ← match optStr rj "bss" with | some s => status s | none => pure none
   let value ← jval (fldD j "value")
   let ri : Int := intD rj "ruleIndex" (-1)
   let reason : Reason :=
